@@ -21,7 +21,7 @@ import (
 func init() {
 	vf.Register(&vf.Prop{
 		ID: "C05", Level: "exploration",
-		Rule: "closed universe of 62 types (18 basic, 7 untyped incl. nil, 15 named/alias forms over int/string/float64/bool/slice/map/chan/func/struct/pointer/interface, 22 composite) and 40 untyped constants at every integer/float boundary: " +
+		Rule: "closed universe of 62 types (18 basic, 7 untyped incl. nil, 15 named/alias forms over int/string/float64/bool/slice/map/chan/func/struct/pointer/interface, 22 composite) and 49 untyped constants (incl. runes beyond int8/uint8/uint16) at every integer/float boundary: " +
 			"ALL ordered pairs (V,T) for AssignableTo, ConvertibleTo and ComparableTo (both operand orders, symmetry), all (constant,T) for AssignableConv, Default for every type; then the same question asked through 9 constructs " +
 			"(var init, assignment, call argument, return, slice/array/map-value/struct-field element, case clause, send) on the real builder, each in a fresh package. Oracle: go/types on one-statement programs (`var _ T = v`, `_ = T(v)`, `_ = v == w`). " +
 			"non-trivial = pairs of distinct types; distinct = predicate x V x T",
@@ -156,6 +156,10 @@ func newWorld() *world {
 	}
 	w.cons = append(w.cons,
 		uconst{"'a'", types.UntypedRune, constant.MakeInt64('a')},
+		uconst{"'\u00e9'", types.UntypedRune, constant.MakeInt64(0xe9)},
+		uconst{"'\u3042'", types.UntypedRune, constant.MakeInt64(0x3042)},
+		uconst{"'\U00010000'", types.UntypedRune, constant.MakeInt64(0x10000)},
+		uconst{"'\U0010ffff'", types.UntypedRune, constant.MakeInt64(0x10ffff)},
 		uconst{"1i", types.UntypedComplex, constant.MakeFromLiteral("1i", token.IMAG, 0)},
 		uconst{"0i", types.UntypedComplex, constant.MakeFromLiteral("0i", token.IMAG, 0)},
 		uconst{`"s"`, types.UntypedString, constant.MakeString("s")},
